@@ -384,7 +384,7 @@ def _fitted_dict_params(repo: Repo, c: Cls, ke: KindEngine) -> Dict[Func, Set[st
     return out
 
 
-def _guarded(sub: ast.Subscript, dname: str, pm, f: Func) -> Optional[str]:
+def _guarded(sub: ast.Subscript, dname: str, pm, f: Func, repo: Optional[Repo] = None, cls=None) -> Optional[str]:
     """Name of the guard idiom protecting the look-up `D[k]`, or None."""
     key = norm(sub.slice)
     anc = ancestors(sub, pm)
@@ -420,29 +420,40 @@ def _guarded(sub: ast.Subscript, dname: str, pm, f: Func) -> Optional[str]:
         if isinstance(a, (ast.FunctionDef, ast.AsyncFunctionDef)):
             break
         prev = a
-    # np.isin mask: the comprehension iterates `arr[mask, j]` where mask derives from np.isin(..., list(D.keys()))
+    # np.isin mask: the comprehension iterates `arr[mask, j]` where the mask implies np.isin(..., list(D.keys()))
     for a in anc:
         if isinstance(a, (ast.ListComp, ast.GeneratorExp)):
             it = a.generators[0].iter
             if isinstance(it, ast.Subscript):
-                idx_names = names_in(it.slice)
-                from .common import single_defs
-
-                defs = single_defs(f)
-                todo = list(idx_names)
-                seen = set()
-                while todo:
-                    nme = todo.pop()
-                    if nme in seen or nme not in defs:
-                        continue
-                    seen.add(nme)
-                    d = defs[nme]
-                    for c in ast.walk(d):
-                        if isinstance(c, ast.Call) and norm(c.func).endswith("isin") and len(c.args) >= 2 \
-                                and dname in norm(c.args[1]):
-                            return "np.isin mask over %s keys" % dname
-                    todo += list(names_in(d))
+                idx = it.slice.elts[0] if isinstance(it.slice, ast.Tuple) and it.slice.elts else it.slice
+                if _mask_implies_isin(idx, f, dname, repo, cls, 0):
+                    return "np.isin mask over %s keys (on every definition of the mask, helpers followed)" % dname
     return None
+
+
+def _mask_implies_isin(e: ast.AST, f: Func, dname: str, repo: Optional[Repo], cls, depth: int) -> bool:
+    """True when a True entry of the boolean mask `e` implies membership of the key in D: an np.isin(.., keys of D)
+    call, a conjunction with one, a name all of whose definitions are, or a helper all of whose returns are."""
+    if depth > 6:
+        return False
+    if isinstance(e, ast.Call) and norm(e.func).endswith("isin") and len(e.args) >= 2 and dname in norm(e.args[1]):
+        return True
+    if isinstance(e, ast.BinOp) and isinstance(e.op, ast.BitAnd):
+        return _mask_implies_isin(e.left, f, dname, repo, cls, depth + 1) or _mask_implies_isin(e.right, f, dname, repo, cls, depth + 1)
+    if isinstance(e, ast.Call) and norm(e.func) in ("np.logical_and", "numpy.logical_and") and len(e.args) == 2:
+        return any(_mask_implies_isin(a, f, dname, repo, cls, depth + 1) for a in e.args)
+    if isinstance(e, ast.Name):
+        defs = [n.value for n in walk_no_nested(f.node) if isinstance(n, ast.Assign) and any(isinstance(t, ast.Name) and t.id == e.id for t in n.targets)]
+        aug = [n for n in walk_no_nested(f.node) if isinstance(n, ast.AugAssign) and isinstance(n.target, ast.Name) and n.target.id == e.id
+               and not isinstance(n.op, ast.BitAnd)]
+        return bool(defs) and not aug and all(_mask_implies_isin(d, f, dname, repo, cls, depth + 1) for d in defs)
+    if isinstance(e, ast.Call) and repo is not None:
+        tg = [t for t in repo.resolve_call(f, e, cls) if isinstance(t, Func)] if cls is not None else [t for t in repo.resolve_call(f, e) if isinstance(t, Func)]
+        if len(tg) == 1:
+            g = tg[0]
+            rets = [n.value for n in walk_no_nested(g.node) if isinstance(n, ast.Return)]
+            return bool(rets) and all(r is not None and _mask_implies_isin(r, g, dname, repo, cls, depth + 1) for r in rets)
+    return False
 
 
 def r1_4(repo: Repo) -> RuleResult:
@@ -478,7 +489,7 @@ def r1_4(repo: Repo) -> RuleResult:
                     continue
                 seen.add(k)
                 construct = "%s[%s]" % (dname, short(n.slice, 40))
-                g = _guarded(n, dname, pm, f)
+                g = _guarded(n, dname, pm, f, repo, c)
                 if g:
                     rr.ok(f, construct, "guarded by %s" % g, n.lineno)
                     continue
@@ -656,14 +667,24 @@ def r1_8(repo: Repo) -> RuleResult:
     return rr
 
 
-RULES = [r1_1, r1_2, r1_3, r1_4, r1_5, r1_6, r1_7, r1_8]
+def r1_9(repo: Repo) -> RuleResult:
+    """`never raises` has one clause that is pure control flow: on no path through transform (and the non-compiled
+    helpers it reaches) is a local read before it is assigned."""
+    from .common import definite_assignment_over, exported_estimators
+
+    rr = RuleResult("R1.9", "every local read on a transform path is assigned on all paths (no UnboundLocalError for any input shape)", floor=40)
+    return definite_assignment_over(repo, rr, exported_estimators(repo), ("transform",),
+                                    "transform raises UnboundLocalError for the inputs that take that path instead of returning one row per item")
+
+
+RULES = [r1_1, r1_2, r1_3, r1_4, r1_5, r1_6, r1_7, r1_8, r1_9]
 
 CLAIM = (
     "R1.1 every sparse matrix assembled from a coordinate/CSR triple on a transform path passes shape= whose column "
     "extent is over fitted state only (taint analysis from transform's arguments); R1.2 CSR row pointers advance by "
     "exactly the number of indices appended for the row; R1.3 each row loop terminates its row exactly once and has no "
     "loop-level continue/break/return; R1.4 every dictionary look-up in fitted vocabulary keyed by transform input is "
-    "guarded by an enumerated idiom; R1.5 out-of-range characters are mapped to code 0; R1.6 dense result buffers have one row per item and a fitted width; R1.7 the tree vectorizer labels its directional column blocks in the order it stacks them; R1.8 block / chunk loops skip an iteration only under an empty-block test."
+    "guarded by an enumerated idiom; R1.5 out-of-range characters are mapped to code 0; R1.6 dense result buffers have one row per item and a fitted width; R1.7 the tree vectorizer labels its directional column blocks in the order it stacks them; R1.8 block / chunk loops skip an iteration only under an empty-block test; R1.9 definite assignment (CFG dataflow) on every transform path and the non-compiled helpers it reaches."
 )
 NOT_DECIDED = (
     "that each column keeps its meaning beyond shape and guarded look-up (code->column mapping is under C06/C16), row "
